@@ -78,3 +78,20 @@ ALL_II(i32) ALL_II(u32) ALL_II(i64) ALL_II(u64)
 ALL_FI(f32, float, vin_f32) ALL_FI(f64, double, vin_f64)
 H_FF(f32, float, vin_f32, f32, float, vbits32) H_FF(f32, float, vin_f32, f64, double, vbits64)
 H_FF(f64, double, vin_f64, f32, float, vbits32) H_FF(f64, double, vin_f64, f64, double, vbits64)
+
+/* ---- Number::convertTo<T>() on a symbolic (kind, payload): the route taken by numeric STRINGS (parseNumber<T>) */
+#define H_NUM(out, LO, HI_EXPR) void h_numcvt_##out(void) { \
+  uint32_t kind = vin_u8(); uint64_t bits = vin_u64(); VASSUME(kind >= 1 && kind <= 4); \
+  U_##out r = (U_##out)w_numcvt_##out(kind, bits); VOBS(r); \
+  if (kind == 2) { i128 x = (i128)(int64_t)bits; int fits = x >= (i128)LO_##out && x <= (i128)HI_##out; VASSERT(r == (fits ? (U_##out)(T_##out)(int64_t)bits : (U_##out)0), "signed integer literal: exact when it fits, 0 otherwise"); VWITNESS("signed"); } \
+  else if (kind == 3) { i128 x = (i128)bits; int fits = x <= (i128)HI_##out; VASSERT(r == (fits ? (U_##out)(T_##out)bits : (U_##out)0), "unsigned integer literal (up to 2^64-1): exact when it fits, 0 otherwise"); VWITNESS("unsigned"); } \
+  else if (kind == 4) { double v; memcpy(&v, &bits, 8); int fits = (v == v) && v >= (LO) && (v HI_EXPR); VASSERT(r == (fits ? (U_##out)(T_##out)v : (U_##out)0), "double literal: truncation when in range, 0 otherwise"); VWITNESS("double"); } \
+  else { float f = vin_unbits32((uint32_t)bits); double v = (double)f; int fits = (v == v) && v >= (LO) && (v HI_EXPR); VASSERT(r == (fits ? (U_##out)(T_##out)f : (U_##out)0), "float literal: truncation when in range, 0 otherwise"); VWITNESS("float"); } }
+H_NUM(i8, -128.0, <= 127.0) H_NUM(u8, 0.0, <= 255.0) H_NUM(i16, -32768.0, <= 32767.0) H_NUM(u16, 0.0, <= 65535.0)
+H_NUM(i32, -2147483648.0, <= 2147483647.0) H_NUM(u32, 0.0, <= 4294967295.0) H_NUM(i64, -9223372036854775808.0, < 9223372036854775808.0) H_NUM(u64, 0.0, < 18446744073709551616.0)
+void h_numcvt_f64(void) {
+  uint32_t kind = vin_u8(); uint64_t bits = vin_u64(); VASSUME(kind >= 1 && kind <= 4);
+  double r = w_numcvt_f64(kind, bits); double e;
+  if (kind == 2) e = (double)(int64_t)bits; else if (kind == 3) e = (double)bits; else if (kind == 4) memcpy(&e, &bits, 8); else e = (double)vin_unbits32((uint32_t)bits);
+  VASSERT((e != e) ? (r != r) : vbits64(r) == vbits64(e), "as<double>() of a numeric string: the value of the literal's kind converted to double"); VWITNESS("any");
+}
